@@ -38,6 +38,11 @@ CLAIMED["C05"] = dict(
    text="Exploration: every text the parser accepts among the corpus, a seeded 15% (quick) / complete (thorough) single-token mutation neighbourhood, 8k / 120k generated programs of four profiles and a limit walk of +-2 / +-6 around every encoding limit (u8 registers through locals, nesting, call and function arguments, captures, defaults, multi-assignment; varint constants and size hints at 128 / 16384; import lists; loop / while / if / function bodies and backward jumps around 64 KiB) is compiled and its bytecode verified structurally on EVERY path (decode, function extents, jump targets, register and constant operands, builder / try balance by abstract interpretation), recompiled in-process (and the corpus in a forked process) for determinism, run for internal faults, and limit cases are checked against a closed-form result.",
    note="Trusts the verifier's reading of the instruction set through the public InstructionReader, and the token/AST predicate that keys the known shape 'control exit inside an expression'. Internal faults at run time are recognised by error text.",
    design="§4 C05")
+CLAIMED["C10"] = dict(
+   technique="metamorphic property-based testing: trivia insertion on the corpus against canonical-AST identity, layout-vector pairs of generated programs against each other and the reference interpreter, and line-prefix cuts against the indentation-error classification",
+   text="Exploration: 12 (quick) / 80 (thorough) seeded trivia variants of every corpus text (trailing whitespace, trailing / own-line / column-0 / multi-line comments, blank lines with and without stray indentation, inline comments) must parse to the identical canonical syntax tree; 15k / 200k generated programs of three profiles are printed under two random layout vectors (inline vs block forms, quote style, call parentheses, operator line breaks, comments, blank lines) which must behave identically, agree with the reference interpreter and parse to the same tree modulo cosmetic fields; every line prefix of each program is classified (header awaiting a block / trailing `=` or operator => is_indentation_error; top-level statement boundary => compiles).",
+   note="Trusts the printer's notion of admissible layouts (one statement per line, continuation lines strictly deeper for each further break, no breaks inside headers) and the Debug-rendering-based canonical AST. Cuts not listed by the statement are not judged.",
+   design="§4 C10")
 NOT_YET = {}
 props=[json.loads(l) for l in open('/verif/properties.jsonl')]
 checks=[]; na=[]
